@@ -1544,4 +1544,130 @@ val vmatch : ((z * z) * z list) option -> val0
 
 val dispatch_token : z -> val0 -> val0 option
 
+val sLASH : z
+
+val dOT1 : z
+
+type entry =
+| File of str
+| Dir of str * entry list
+| SymFile of str
+| SymDir of str * entry list
+
+val name_of : entry -> str
+
+type wopts = { o_file : bool; o_dir : bool; o_follow : bool; o_hidden : bool }
+
+val starts_with0 : str -> str -> bool
+
+val ends_with : str -> str -> bool
+
+val has_slash : str -> bool
+
+val strip_dot_slash : str -> str
+
+val drop_trailing_slashes : str -> str
+
+val display : str -> str
+
+val child : str -> str -> str
+
+val with_sep : str -> str
+
+val after_last_slash_aux : str -> str -> str
+
+val base_name : str -> str
+
+val hidden_name : str -> bool
+
+val skip_matches : str -> str -> str -> bool
+
+val skipped : str list -> str -> str -> bool
+
+val pruned : wopts -> str list -> str -> str -> bool
+
+val emit : bool -> str -> str list
+
+val list_entry : wopts -> str list -> str -> entry -> str list
+
+val listing : wopts -> str list -> str -> entry list -> str list
+
+val listing_roots : wopts -> str list -> (str * entry list) list -> str list
+
+type kind =
+| KFile
+| KDir
+| KSymFile
+| KSymDir
+
+type action0 =
+| Continue
+| SkipDir
+
+val kind_of : entry -> kind
+
+val is_sep0 : z -> bool
+
+val sep : str
+
+val go_has_suffix : str -> str -> bool
+
+val go_has_prefix : str -> str -> bool
+
+val go_contains_rune : str -> z -> bool
+
+val clean_root_path : str -> str
+
+val last_byte : str -> z option
+
+val join_paths : str -> str -> str
+
+val pATH_SEPARATOR : z
+
+val trim_loop : str -> str
+
+val trim_path : str -> str
+
+val take_while0 : ('a1 -> bool) -> 'a1 list -> 'a1 list
+
+val go_base : str -> str
+
+val split_ignores : str list -> (str list * str list) * str list
+
+val push : bool -> str -> str list
+
+val walk_fn :
+  wopts -> ((str list * str list) * str list) -> str -> kind -> (str
+  list * action0) res
+
+type callback = str -> kind -> (str list * action0) res
+
+val fw_entry : callback -> bool -> str -> entry -> str list res
+
+val fw_read : callback -> bool -> str -> entry list -> str list res
+
+val fw_walk : callback -> bool -> str -> entry list -> str list res
+
+val walk_roots : callback -> bool -> (str * entry list) list -> str list res
+
+val read_files : wopts -> str list -> (str * entry list) list -> str list res
+
+val as_entry : val0 -> entry
+
+val as_opts : val0 -> wopts
+
+val as_root : val0 -> str * entry list
+
+val as_roots : val0 -> (str * entry list) list
+
+val as_kind : z -> kind
+
+val d_model : val0 -> val0
+
+val d_spec : val0 -> val0
+
+val d_fn : val0 -> val0
+
+val dispatch_walk : z -> val0 -> val0 option
+
 val dispatch : z -> val0 -> val0
